@@ -124,7 +124,7 @@ Lemma fv_apply_refines o (l : fvec) :
   fv_abs (fst (fv_apply o l)) = fm_next o (fv_abs l) /\
   NoDup (fst (fv_apply o l)).*1.
 Proof.
-  intros Hnd Hwf. destruct o as [k v|k|f|n|k|k| |]; cbn [fv_apply fm_ret_ok fm_next fst snd].
+  intros Hnd Hwf. destruct o as [k v|k|f|n|k|k| | | |k v]; cbn [fv_apply fm_ret_ok fm_next fst snd].
   - split; [reflexivity|]. split; [apply fv_insert_abs, Hnd|apply fv_insert_nodup, Hnd].
   - destruct (fv_remove_spec k l Hnd) as (Hr & Ha & Hn).
     destruct (fv_remove k l) as [l' r]. cbn [fst snd] in *.
@@ -135,7 +135,21 @@ Proof.
   - split; [rewrite fv_find_lookup; reflexivity|]. split; [reflexivity|exact Hnd].
   - split; [rewrite fv_len_size by exact Hnd; reflexivity|]. split; [reflexivity|exact Hnd].
   - split; [exists l; auto|]. split; [reflexivity|exact Hnd].
+  - split; [rewrite fv_len_size by exact Hnd; reflexivity|]. split; [reflexivity|exact Hnd].
+  - rewrite <- fv_find_lookup. destruct (fv_find k l) as [v0|]; cbn [fst snd default].
+    + split; [reflexivity|]. split; [reflexivity|exact Hnd].
+    + split; [reflexivity|]. split; [apply fv_insert_abs, Hnd|apply fv_insert_nodup, Hnd].
 Qed.
+
+(* one thread alone, entry(k).or_insert_with(|| v) is its two parts back to back:
+   the lookup, and - if that found nothing - the insert *)
+Lemma entry_parts_sequential k v (l : fvec) :
+  fv_apply (FEntry k v) l =
+  match fv_find k l with
+  | Some v0 => (l, RVal v0)
+  | None => (fst (fv_apply (FIns k v) (fst (fv_apply (FGet k) l))), RVal v)
+  end.
+Proof. cbn [fv_apply fst]. destruct (fv_find k l); reflexivity. Qed.
 
 Lemma fv_legal_refines h : forall (l e : fvec),
   NoDup l.*1 -> Forall op_wf h.*1 -> fv_legal h l e ->
@@ -227,7 +241,7 @@ Proof.
   induction h as [|[o r] h IH]; intros m e Hl; [cbn; lia|].
   cbn [fm_legal] in Hl. destruct Hl as [Hr Hl]. specialize (IH _ _ Hl).
   rewrite !count_if_cons. unfold has_key in *.
-  destruct o as [k' v|k'|f|n|k'|k'| |]; cbn [fm_next fm_ret_ok takes_key adds_key fst] in *.
+  destruct o as [k' v|k'|f|n|k'|k'| | | |k' v]; cbn [fm_next fm_ret_ok takes_key adds_key fst] in *.
   - (* insert *) subst r. destruct (N.eqb_spec k' k) as [->|Hne].
     + rewrite lookup_insert in IH. destruct (m !! k); lia.
     + rewrite lookup_insert_ne in IH by exact Hne. lia.
@@ -242,6 +256,10 @@ Proof.
   - subst r. lia.
   - subst r. lia.
   - destruct Hr as (l & -> & _). lia.
+  - subst r. lia.
+  - (* entry *) subst r. destruct (N.eqb_spec k' k) as [->|Hne].
+    + destruct (m !! k) eqn:E; [rewrite E in IH; lia|]. rewrite lookup_insert in IH. lia.
+    + destruct (m !! k'); [lia|]. rewrite lookup_insert_ne in IH by exact Hne. lia.
 Qed.
 
 Lemma takes_segment k h1 h2 h3 (m e : amap) :
@@ -258,68 +276,87 @@ Qed.
 (* ================================================================== *)
 
 Definition is_reader (o : fop) : bool :=
-  match o with FGet _ | FHas _ | FLen => true | _ => false end.
+  match o with FGet _ | FHas _ | FLen | FEmpty => true | _ => false end.
 
-Inductive tstep (fixed : bool) (t : nat) (stamp : N) (cur : fvec) :
+Inductive tstep (cv : variant) (t : nat) (stamp : N) (cur : fvec) :
   thread -> N -> fvec -> thread -> list event -> Prop :=
 | ts_call o rest :
     is_writer o = true ->
-    tstep fixed t stamp cur (MkThread (o :: rest) PIdle)
+    tstep cv t stamp cur (MkThread (o :: rest) PIdle)
           stamp cur (MkThread (o :: rest) (PClosure stamp cur None)) [ECall t o]
 | ts_guard rest :
-    tstep fixed t stamp cur (MkThread (FIter :: rest) PIdle)
+    tstep cv t stamp cur (MkThread (FIter :: rest) PIdle)
           stamp cur (MkThread (FIter :: rest) (PIter cur)) [ECall t FIter; ELin t FIter (RList cur)]
 | ts_store n rest :
-    tstep fixed t stamp cur (MkThread (FRepl n :: rest) PIdle)
+    tstep cv t stamp cur (MkThread (FRepl n :: rest) PIdle)
           (stamp + 1)%N n (MkThread rest PIdle)
           [ECall t (FRepl n); ELin t (FRepl n) RUnit; ERet t (FRepl n) RUnit]
 | ts_read o rest :
     is_reader o = true ->
-    tstep fixed t stamp cur (MkThread (o :: rest) PIdle)
+    tstep cv t stamp cur (MkThread (o :: rest) PIdle)
           stamp cur (MkThread rest PIdle)
           [ECall t o; ELin t o (snd (fv_apply o cur)); ERet t o (snd (fv_apply o cur))]
+| ts_entry_occ k v v0 rest :
+    fv_find k cur = Some v0 ->
+    tstep cv t stamp cur (MkThread (FEntry k v :: rest) PIdle)
+          stamp cur (MkThread rest PIdle)
+          [ECall t (FEntry k v); ELin t (FGet k) (ROpt (Some v0)); ERet t (FEntry k v) (RVal v0)]
+| ts_entry_vac k v rest :
+    fv_find k cur = None ->
+    tstep cv t stamp cur (MkThread (FEntry k v :: rest) PIdle)
+          stamp cur (MkThread (FEntry k v :: rest) PVacant)
+          [ECall t (FEntry k v); ELin t (FGet k) (ROpt None)]
+| ts_vacant o rest :
+    tstep cv t stamp cur (MkThread (o :: rest) PVacant)
+          stamp cur (MkThread (o :: rest) (PClosure stamp cur None)) []
 | ts_cas_ok o rest snap sticky :
-    tstep fixed t stamp cur (MkThread (o :: rest) (PClosure stamp snap sticky))
-          (stamp + 1)%N (fst (closure fixed o sticky snap)) (MkThread rest PIdle)
-          [ELin t o (writer_ret o (snd (closure fixed o sticky snap)));
-           ERet t o (writer_ret o (snd (closure fixed o sticky snap)))]
+    tstep cv t stamp cur (MkThread (o :: rest) (PClosure stamp snap sticky))
+          (stamp + 1)%N (fst (closure cv o sticky snap)) (MkThread rest PIdle)
+          [ELin t (lin_op o) (lin_ret o (writer_ret o (snd (closure cv o sticky snap))));
+           ERet t o (writer_ret o (snd (closure cv o sticky snap)))]
 | ts_cas_fail o rest st snap sticky :
     st <> stamp ->
-    tstep fixed t stamp cur (MkThread (o :: rest) (PClosure st snap sticky))
-          stamp cur (MkThread (o :: rest) (PClosure stamp cur (snd (closure fixed o sticky snap)))) []
+    tstep cv t stamp cur (MkThread (o :: rest) (PClosure st snap sticky))
+          stamp cur (MkThread (o :: rest) (PClosure stamp cur (snd (closure cv o sticky snap)))) []
 | ts_iterate o rest snap :
-    tstep fixed t stamp cur (MkThread (o :: rest) (PIter snap))
+    tstep cv t stamp cur (MkThread (o :: rest) (PIter snap))
           stamp cur (MkThread rest PIdle) [ERet t o (RList snap)].
 
-Lemma step_shape fixed s t :
-  (step fixed s t = s /\ thread_done s t = true) \/
+Lemma step_shape cv s t :
+  (step cv s t = s /\ thread_done s t = true) \/
   exists th stamp' cur' th' evs nf,
     g_thr s !! t = Some th /\
-    tstep fixed t (g_stamp s) (g_cur s) th stamp' cur' th' evs /\
-    step fixed s t = MkG stamp' cur' (<[t := th']> (g_thr s)) (g_log s ++ evs) nf.
+    tstep cv t (g_stamp s) (g_cur s) th stamp' cur' th' evs /\
+    step cv s t = MkG stamp' cur' (<[t := th']> (g_thr s)) (g_log s ++ evs) nf.
 Proof.
   unfold step, set_thr, thread_done. destruct (g_thr s !! t) as [[prog p]|] eqn:Et; [|left; split; reflexivity].
   cbn [t_prog t_pc]. destruct prog as [|o rest]; [left; split; reflexivity|]. right.
-  destruct p as [|st snap sticky|snap].
+  destruct p as [|st snap sticky|snap|].
   - destruct (is_writer o) eqn:Ew.
     + eexists _, _, _, _, _, _. split; [reflexivity|]. split; [apply ts_call, Ew|reflexivity].
-    + destruct o; try discriminate Ew.
+    + destruct o as [k v|k|f|n|k|k| | | |k v]; try discriminate Ew.
       * eexists _, _, _, _, _, _. split; [reflexivity|]. split; [apply ts_store|reflexivity].
       * eexists _, _, _, _, _, _. split; [reflexivity|]. split; [apply ts_read; reflexivity|reflexivity].
       * eexists _, _, _, _, _, _. split; [reflexivity|]. split; [apply ts_read; reflexivity|reflexivity].
       * eexists _, _, _, _, _, _. split; [reflexivity|]. split; [apply ts_read; reflexivity|reflexivity].
       * eexists _, _, _, _, _, _. split; [reflexivity|]. split; [apply ts_guard|reflexivity].
-  - destruct (closure fixed o sticky snap) as [new sticky'] eqn:Ec.
+      * eexists _, _, _, _, _, _. split; [reflexivity|]. split; [apply ts_read; reflexivity|reflexivity].
+      * destruct (fv_find k (g_cur s)) as [v0|] eqn:Ef.
+        -- eexists _, _, _, _, _, _. split; [reflexivity|]. split; [apply ts_entry_occ, Ef|reflexivity].
+        -- eexists _, _, _, _, _, _. split; [reflexivity|]. split; [apply ts_entry_vac, Ef|reflexivity].
+  - destruct (closure cv o sticky snap) as [new sticky'] eqn:Ec.
     destruct (N.eqb_spec st (g_stamp s)) as [->|Hne].
     + eexists _, _, _, _, _, _. split; [reflexivity|]. split; [apply ts_cas_ok|].
       rewrite Ec. reflexivity.
     + eexists _, _, _, _, _, _. split; [reflexivity|]. split; [apply ts_cas_fail, Hne|].
       rewrite Ec, app_nil_r. reflexivity.
   - eexists _, _, _, _, _, _. split; [reflexivity|]. split; [apply ts_iterate|reflexivity].
+  - eexists _, _, _, _, _, _. split; [reflexivity|]. split; [apply ts_vacant|].
+    rewrite app_nil_r. reflexivity.
 Qed.
 
-Lemma tstep_evs_thread fixed t stamp cur th stamp' cur' th' evs :
-  tstep fixed t stamp cur th stamp' cur' th' evs -> Forall (fun e => ev_thread e = t) evs.
+Lemma tstep_evs_thread cv t stamp cur th stamp' cur' th' evs :
+  tstep cv t stamp cur th stamp' cur' th' evs -> Forall (fun e => ev_thread e = t) evs.
 Proof. destruct 1; repeat constructor. Qed.
 
 Lemma thread_log_app t l1 l2 : thread_log t (l1 ++ l2) = thread_log t l1 ++ thread_log t l2.
@@ -350,7 +387,8 @@ Definition pc_ok (stamp : N) (cur : fvec) (th : thread) : Prop :=
   match t_pc th with
   | PClosure st snap _ =>
       (st <= stamp)%N /\ (st = stamp -> snap = cur) /\
-      exists o rest, t_prog th = o :: rest /\ is_writer o = true
+      exists o rest, t_prog th = o :: rest /\ is_rcu o = true
+  | PVacant => exists o rest, t_prog th = o :: rest /\ is_rcu o = true
   | _ => True
   end.
 Definition thr_inv (s : gstate) : Prop :=
@@ -363,15 +401,15 @@ Lemma thr_inv_update s t th' stamp' cur' log' nf :
 Proof.
   intros Hinv Hle Heq Hnew t' th0 Hl. cbn [g_thr g_stamp g_cur] in *.
   apply list_lookup_insert_Some in Hl as [(-> & <- & _)|[_ Hl]]; [exact Hnew|].
-  specialize (Hinv _ _ Hl). unfold pc_ok in *. destruct (t_pc th0); try exact I.
+  specialize (Hinv _ _ Hl). unfold pc_ok in *. destruct (t_pc th0); try exact I; [|exact Hinv].
   destruct Hinv as (Hst & Hsnap & Hw). split; [lia|]. split; [|exact Hw].
   intros ->. assert (stamp' = g_stamp s) as E by lia. rewrite Heq by exact E. apply Hsnap. lia.
 Qed.
 
 Lemma closure_fixed o sticky snap :
-  is_writer o = true ->
-  fst (closure true o sticky snap) = fst (fv_apply o snap) /\
-  writer_ret o (snd (closure true o sticky snap)) = snd (fv_apply o snap).
+  is_rcu o = true ->
+  fst (closure VFixed o sticky snap) = fst (fv_apply (lin_op o) snap) /\
+  lin_ret o (writer_ret o (snd (closure VFixed o sticky snap))) = snd (fv_apply (lin_op o) snap).
 Proof.
   destruct o; cbn; try discriminate; intros _; auto.
   destruct (fv_remove k snap) as [new r]. cbn. destruct r; auto.
@@ -384,15 +422,17 @@ Lemma fv_legal_snoc h (l m : fvec) o :
   fv_legal h l m -> fv_legal (h ++ [(o, snd (fv_apply o m))]) l (fst (fv_apply o m)).
 Proof. intros H. eapply fv_legal_app; [exact H|]. cbn. auto. Qed.
 
-Lemma lin_inv_step init s t : lin_inv init s -> lin_inv init (step true s t).
+Lemma lin_inv_step init s t : lin_inv init s -> lin_inv init (step VFixed s t).
 Proof.
   intros [Hleg Hthr].
-  destruct (step_shape true s t) as [[-> _]|(th & stamp' & cur' & th' & evs & nf & Et & Hts & ->)]; [split; assumption|].
+  destruct (step_shape VFixed s t) as [[-> _]|(th & stamp' & cur' & th' & evs & nf & Et & Hts & ->)]; [split; assumption|].
   pose proof (Hthr _ _ Et) as Hpc.
-  destruct Hts as [o rest Hw|rest|n rest|o rest Hrd|o rest snap sticky|o rest st snap sticky Hne|o rest snap];
+  destruct Hts as [o rest Hw|rest|n rest|o rest Hrd|k v v0 rest Hf|k v rest Hf|o rest
+                   |o rest snap sticky|o rest st snap sticky Hne|o rest snap];
     unfold lin_inv; cbn [g_log g_cur]; rewrite ?lin_hist_app; cbn [lin_hist omap lin_of]; rewrite ?app_nil_r.
   - split; [exact Hleg|]. apply thr_inv_update; [exact Hthr|lia|auto|].
-    unfold pc_ok. cbn. split; [lia|]. split; [auto|]. eauto.
+    unfold pc_ok. cbn [t_pc t_prog]. split; [lia|]. split; [auto|].
+    exists o, rest. split; [reflexivity|]. unfold is_rcu. rewrite Hw. destruct o; reflexivity.
   - split; [apply (fv_legal_snoc _ _ (g_cur s) FIter), Hleg|].
     apply thr_inv_update; [exact Hthr|lia|auto|exact I].
   - split; [apply (fv_legal_snoc _ _ (g_cur s) (FRepl n)), Hleg|].
@@ -401,6 +441,21 @@ Proof.
     + assert (Hfst : fst (fv_apply o (g_cur s)) = g_cur s) by (destruct o; try discriminate Hrd; reflexivity).
       pose proof (fv_legal_snoc _ _ _ o Hleg) as H. rewrite Hfst in H. exact H.
     + apply thr_inv_update; [exact Hthr|lia|auto|exact I].
+  - (* entry, occupied: the lookup *)
+    split.
+    + pose proof (fv_legal_snoc _ _ _ (FGet k) Hleg) as H. cbn [fv_apply fst snd] in H.
+      rewrite Hf in H. exact H.
+    + apply thr_inv_update; [exact Hthr|lia|auto|exact I].
+  - (* entry, vacant: the lookup *)
+    split.
+    + pose proof (fv_legal_snoc _ _ _ (FGet k) Hleg) as H. cbn [fv_apply fst snd] in H.
+      rewrite Hf in H. exact H.
+    + apply thr_inv_update; [exact Hthr|lia|auto|].
+      unfold pc_ok. cbn [t_pc t_prog]. eauto.
+  - (* the vacant entry's insert loads *)
+    unfold pc_ok in Hpc. cbn [t_pc t_prog] in Hpc.
+    split; [exact Hleg|]. apply thr_inv_update; [exact Hthr|lia|auto|].
+    unfold pc_ok. cbn [t_pc t_prog]. split; [lia|]. split; [auto|exact Hpc].
   - unfold pc_ok in Hpc. cbn [t_pc t_prog] in Hpc. destruct Hpc as (_ & Hsnap & o' & rest' & [= <- <-] & Hw).
     specialize (Hsnap eq_refl). subst snap.
     destruct (closure_fixed o sticky (g_cur s) Hw) as [-> ->]. split; [apply fv_legal_snoc, Hleg|].
@@ -417,17 +472,17 @@ Proof.
   rewrite list_lookup_fmap in Hl. destruct (progs !! t); [|discriminate]. injection Hl as <-. exact I.
 Qed.
 
-Lemma exec_inv (P : gstate -> Prop) fixed :
-  (forall s t, P s -> P (step fixed s t)) -> forall sched s, P s -> P (exec fixed sched s).
+Lemma exec_inv (P : gstate -> Prop) cv :
+  (forall s t, P s -> P (step cv s t)) -> forall sched s, P s -> P (exec cv sched s).
 Proof.
   intros Hstep. induction sched as [|t sched IH]; intros s Hs; [exact Hs|].
   apply IH, Hstep, Hs.
 Qed.
 
 Lemma linearizable_vec init progs sched :
-  fv_legal (lin_hist (g_log (run true init progs sched))) init (g_cur (run true init progs sched)).
+  fv_legal (lin_hist (g_log (run VFixed init progs sched))) init (g_cur (run VFixed init progs sched)).
 Proof.
-  apply (exec_inv (lin_inv init) true (lin_inv_step init) sched _ (lin_inv_init init progs)).
+  apply (exec_inv (lin_inv init) VFixed (lin_inv_step init) sched _ (lin_inv_init init progs)).
 Qed.
 
 (* (b) operations in the linearisation come from the programs *)
@@ -435,10 +490,10 @@ Definition wf_inv (s : gstate) : Prop :=
   (forall t th, g_thr s !! t = Some th -> Forall op_wf (t_prog th)) /\
   Forall op_wf (lin_hist (g_log s)).*1.
 
-Lemma wf_inv_step fixed s t : wf_inv s -> wf_inv (step fixed s t).
+Lemma wf_inv_step cv s t : wf_inv s -> wf_inv (step cv s t).
 Proof.
   intros [Hth Hlog].
-  destruct (step_shape fixed s t) as [[-> _]|(th & stamp' & cur' & th' & evs & nf & Et & Hts & ->)]; [split; assumption|].
+  destruct (step_shape cv s t) as [[-> _]|(th & stamp' & cur' & th' & evs & nf & Et & Hts & ->)]; [split; assumption|].
   pose proof (Hth _ _ Et) as Hwf.
   assert (Hupd : forall th'', Forall op_wf (t_prog th'') ->
             forall t0 th0, <[t := th'']> (g_thr s) !! t0 = Some th0 -> Forall op_wf (t_prog th0)).
@@ -446,7 +501,7 @@ Proof.
   unfold wf_inv. cbn [g_thr g_log]. rewrite lin_hist_app, fmap_app, Forall_app.
   destruct Hts; cbn [t_prog] in Hwf; cbn [lin_hist omap lin_of fmap list_fmap fst];
     try (apply Forall_cons in Hwf as [Ho Hrest]);
-    (split; [eapply Hupd; cbn [t_prog]; eauto|split; [exact Hlog|repeat constructor; auto]]).
+    (split; [eapply Hupd; cbn [t_prog]; eauto|split; [exact Hlog|repeat constructor; auto; try (destruct o; cbn [lin_op op_wf]; auto)]]).
 Qed.
 
 Lemma wf_inv_init init progs : Forall (Forall op_wf) progs -> wf_inv (g_init init progs).
@@ -458,86 +513,158 @@ Qed.
 
 (* (c) per-thread shape of the log: Call, Lin, Ret in this order for every
    call, calls in program order *)
+(* what a call that is inside rcu (or about to enter it) has logged *)
+Definition pend_rcu (t : nat) (o : fop) : list event :=
+  match o with
+  | FEntry k v => [ECall t o; ELin t (FGet k) (ROpt None)]
+  | _ => [ECall t o]
+  end.
+
 Definition pend (t : nat) (th : thread) : list event :=
   match t_pc th, t_prog th with
-  | PClosure _ _ _, o :: _ => [ECall t o]
+  | PClosure _ _ _, o :: _ => pend_rcu t o
+  | PVacant, o :: _ => pend_rcu t o
   | PIter snap, o :: _ => [ECall t o; ELin t o (RList snap)]
   | _, _ => []
+  end.
+
+(* only guard() leaves a thread holding an IterGuard *)
+Definition iter_ok (th : thread) : Prop :=
+  match t_pc th with
+  | PIter _ => exists rest, t_prog th = FIter :: rest
+  | _ => True
   end.
 
 Definition log_inv (progs : list (list fop)) (s : gstate) : Prop :=
   forall t th, g_thr s !! t = Some th ->
     exists prog done, progs !! t = Some prog /\
-      prog = done.*1 ++ t_prog th /\
-      thread_log t (g_log s) = concat (triple t <$> done) ++ pend t th.
+      prog = (call_op <$> done) ++ t_prog th /\
+      Forall call_ok done /\ iter_ok th /\
+      thread_log t (g_log s) = concat (block t <$> done) ++ pend t th.
 
-Lemma triples_snoc t done c :
-  concat (triple t <$> (done ++ [c])) = concat (triple t <$> done) ++ triple t c.
-Proof. rewrite fmap_app, concat_app. f_equal. Qed.
+Lemma blocks_snoc t done c :
+  concat (block t <$> (done ++ [c])) = concat (block t <$> done) ++ block t c.
+Proof. rewrite fmap_app, concat_app. f_equal. cbn [fmap list_fmap concat]. apply app_nil_r. Qed.
 
-Lemma log_inv_step fixed progs s t : log_inv progs s -> log_inv progs (step fixed s t).
+Lemma call_ok_plain o r : (forall k v, o <> FEntry k v) -> call_ok (o, r, [(o, r)]).
+Proof. intros Hne. unfold call_ok, call_op. cbn [fst snd]. destruct o; try reflexivity. exfalso. eapply Hne. reflexivity. Qed.
+
+(* the block a call completes with when its compare-and-swap succeeds *)
+Definition cas_done (o : fop) (r : fret) : done_call :=
+  match o with
+  | FEntry k v => (o, r, [(FGet k, ROpt None); (FIns k v, RUnit)])
+  | _ => (o, r, [(o, r)])
+  end.
+
+Lemma cas_done_op o r : call_op (cas_done o r) = o.
+Proof. destruct o; reflexivity. Qed.
+
+Lemma cas_done_block t o r :
+  pend_rcu t o ++ [ELin t (lin_op o) (lin_ret o r); ERet t o r] = block t (cas_done o r).
+Proof. destruct o; reflexivity. Qed.
+
+Lemma cas_done_ok o sticky :
+  call_ok (cas_done o (writer_ret o sticky)).
+Proof.
+  destruct o; try (apply call_ok_plain; intros ? ?; discriminate).
+  unfold call_ok, call_op. cbn. right. auto.
+Qed.
+
+Lemma log_inv_step cv progs s t : log_inv progs s -> log_inv progs (step cv s t).
 Proof.
   intros Hinv.
-  destruct (step_shape fixed s t) as [[-> _]|(th & stamp' & cur' & th' & evs & nf & Et & Hts & ->)]; [assumption|].
+  destruct (step_shape cv s t) as [[-> _]|(th & stamp' & cur' & th' & evs & nf & Et & Hts & ->)]; [assumption|].
   pose proof (tstep_evs_thread _ _ _ _ _ _ _ _ _ Hts) as Hevs.
   intros t0 th0 Hl. cbn [g_thr g_log] in *. rewrite thread_log_app.
   apply list_lookup_insert_Some in Hl as [(-> & <- & _)|[Hne Hl]].
   2:{ rewrite (thread_log_other t t0 evs); [|intros ->; apply Hne; reflexivity|exact Hevs].
       rewrite app_nil_r. apply Hinv, Hl. }
   rewrite (thread_log_own t0 evs) by exact Hevs.
-  destruct (Hinv _ _ Et) as (prog & done & Hp & Hprog & Hlog). rewrite Hlog.
-  destruct Hts as [o rest Hw|rest|n rest|o rest Hrd|o rest snap sticky|o rest st snap sticky Hne|o rest snap];
+  destruct (Hinv _ _ Et) as (prog & done & Hp & Hprog & Hok & Hit & Hlog). rewrite Hlog.
+  destruct Hts as [o rest Hw|rest|n rest|o rest Hrd|k v v0 rest Hf|k v rest Hf|o rest
+                   |o rest snap sticky|o rest st snap sticky Hne|o rest snap];
     cbn [t_prog t_pc pend] in *.
-  all: [> exists prog, done | exists prog, done | exists prog, (done ++ [(FRepl n, RUnit)])
-          | exists prog, (done ++ [(o, snd (fv_apply o (g_cur s)))])
-          | exists prog, (done ++ [(o, writer_ret o (snd (closure fixed o sticky snap)))])
-          | exists prog, done | exists prog, (done ++ [(o, RList snap)]) ].
-  all: split; [exact Hp|]; split; [rewrite ?fmap_app, <- ?app_assoc; exact Hprog|].
-  all: rewrite ?triples_snoc, ?app_nil_r, <- ?app_assoc; reflexivity.
+  - (* a writer calls *)
+    exists prog, done. split; [exact Hp|]. split; [exact Hprog|]. split; [exact Hok|]. split; [exact I|].
+    rewrite app_nil_r. destruct o; try discriminate Hw; reflexivity.
+  - exists prog, done. split; [exact Hp|]. split; [exact Hprog|]. split; [exact Hok|]. split; [unfold iter_ok; cbn; eauto|].
+    rewrite app_nil_r. reflexivity.
+  - exists prog, (done ++ [(FRepl n, RUnit, [(FRepl n, RUnit)])]).
+    split; [exact Hp|]. split; [rewrite fmap_app, <- app_assoc; exact Hprog|].
+    split; [apply Forall_app; split; [exact Hok|repeat constructor]|]. split; [exact I|].
+    rewrite blocks_snoc, !app_nil_r. reflexivity.
+  - exists prog, (done ++ [(o, snd (fv_apply o (g_cur s)), [(o, snd (fv_apply o (g_cur s)))])]).
+    split; [exact Hp|]. split; [rewrite fmap_app, <- app_assoc; exact Hprog|].
+    split; [apply Forall_app; split; [exact Hok|]; constructor; [|constructor];
+            apply call_ok_plain; intros ? ? ->; discriminate Hrd|]. split; [exact I|].
+    rewrite blocks_snoc, !app_nil_r. reflexivity.
+  - exists prog, (done ++ [(FEntry k v, RVal v0, [(FGet k, ROpt (Some v0))])]).
+    split; [exact Hp|]. split; [rewrite fmap_app, <- app_assoc; exact Hprog|].
+    split; [apply Forall_app; split; [exact Hok|]; constructor; [|constructor];
+            unfold call_ok, call_op; cbn; left; eauto|]. split; [exact I|].
+    rewrite blocks_snoc, !app_nil_r. reflexivity.
+  - exists prog, done. split; [exact Hp|]. split; [exact Hprog|]. split; [exact Hok|]. split; [exact I|].
+    rewrite app_nil_r. reflexivity.
+  - exists prog, done. split; [exact Hp|]. split; [exact Hprog|]. split; [exact Hok|]. split; [exact I|].
+    rewrite app_nil_r. reflexivity.
+  - exists prog, (done ++ [cas_done o (writer_ret o (snd (closure cv o sticky snap)))]).
+    split; [exact Hp|]. split; [rewrite fmap_app, <- app_assoc; cbn [fmap list_fmap]; rewrite cas_done_op; exact Hprog|].
+    split; [apply Forall_app; split; [exact Hok|]; constructor; [apply cas_done_ok|constructor]|]. split; [exact I|].
+    rewrite blocks_snoc, <- app_assoc, cas_done_block, app_nil_r. reflexivity.
+  - exists prog, done. split; [exact Hp|]. split; [exact Hprog|]. split; [exact Hok|]. split; [exact I|].
+    rewrite app_nil_r. reflexivity.
+  - exists prog, (done ++ [(o, RList snap, [(o, RList snap)])]).
+    split; [exact Hp|]. split; [rewrite fmap_app, <- app_assoc; exact Hprog|].
+    unfold iter_ok in Hit. cbn [t_pc t_prog] in Hit. destruct Hit as (rest' & [= -> ->]).
+    split; [apply Forall_app; split; [exact Hok|]; constructor; [reflexivity|constructor]|]. split; [exact I|].
+    rewrite blocks_snoc, <- app_assoc, app_nil_r. reflexivity.
 Qed.
 
 Lemma log_inv_init init progs : log_inv progs (g_init init progs).
 Proof.
   intros t th Hl. cbn [g_init g_thr g_log] in *. rewrite list_lookup_fmap in Hl.
   destruct (progs !! t) as [p|] eqn:E; [|discriminate]. injection Hl as <-.
-  exists p, []. auto.
+  exists p, []. split; [reflexivity|]. split; [reflexivity|]. split; [constructor|]. split; [exact I|reflexivity].
 Qed.
 
-Lemma exec_length fixed sched : forall s, length (g_thr (exec fixed sched s)) = length (g_thr s).
+Lemma exec_length cv sched : forall s, length (g_thr (exec cv sched s)) = length (g_thr s).
 Proof.
   induction sched as [|t sched IH]; intros s; [reflexivity|]. cbn [exec fold_left]. 
-  fold (exec fixed sched (step fixed s t)). rewrite IH.
-  destruct (step_shape fixed s t) as [[-> _]|(th & stamp' & cur' & th' & evs & nf & _ & _ & ->)]; [reflexivity|].
+  fold (exec cv sched (step cv s t)). rewrite IH.
+  destruct (step_shape cv s t) as [[-> _]|(th & stamp' & cur' & th' & evs & nf & _ & _ & ->)]; [reflexivity|].
   cbn [g_thr]. apply insert_length.
 Qed.
 
-Lemma thread_logs_ok fixed init progs sched t prog :
+Lemma thread_logs_ok cv init progs sched t prog :
   progs !! t = Some prog ->
-  thread_log_ok t prog (thread_log t (g_log (run fixed init progs sched))).
+  thread_log_ok t prog (thread_log t (g_log (run cv init progs sched))).
 Proof.
   intros Hp.
-  pose proof (exec_inv (log_inv progs) fixed (fun s t => log_inv_step fixed progs s t) sched _
+  pose proof (exec_inv (log_inv progs) cv (fun s t => log_inv_step cv progs s t) sched _
                 (log_inv_init init progs)) as Hinv.
-  fold (run fixed init progs sched) in Hinv.
-  assert (Hlen : (t < length (g_thr (run fixed init progs sched)))%nat).
+  fold (run cv init progs sched) in Hinv.
+  assert (Hlen : (t < length (g_thr (run cv init progs sched)))%nat).
   { unfold run. rewrite exec_length. cbn [g_init g_thr]. rewrite fmap_length.
     apply lookup_lt_is_Some. eauto. }
   apply lookup_lt_is_Some in Hlen as [th Hth].
-  destruct (Hinv _ _ Hth) as (prog' & done & Hp' & Hprog & Hlog).
+  destruct (Hinv _ _ Hth) as (prog' & done & Hp' & Hprog & Hok & _ & Hlog).
   rewrite Hp in Hp'. injection Hp' as <-.
-  exists done, (t_prog th), (pend t th). split; [exact Hprog|]. split; [exact Hlog|].
-  unfold pending_ok, pend. destruct (t_pc th); [left; reflexivity| |];
-    (destruct (t_prog th) as [|o rest']; [left; reflexivity|right; exists o, rest'; eauto]).
+  exists done, (t_prog th), (pend t th). split; [exact Hprog|]. split; [exact Hlog|]. split; [exact Hok|].
+  unfold pending_ok, pend. destruct (t_pc th); [left; reflexivity| | |];
+    (destruct (t_prog th) as [|o rest']; [left; reflexivity|right; exists o, rest'; split; [reflexivity|]]).
+  - destruct o; cbn [pend_rcu]; eauto 6.
+  - eauto.
+  - destruct o; cbn [pend_rcu]; eauto 6.
 Qed.
 
 (* (d) the linearisation refines the abstract map *)
 Lemma linearizable_map init progs sched :
   NoDup init.*1 -> Forall (Forall op_wf) progs ->
-  let s := run true init progs sched in
+  let s := run VFixed init progs sched in
   fm_legal (lin_hist (g_log s)) (fv_abs init) (fv_abs (g_cur s)) /\ NoDup (g_cur s).*1.
 Proof.
   intros Hnd Hwf s. apply fv_legal_refines; [exact Hnd| |apply linearizable_vec].
-  apply (exec_inv wf_inv true (wf_inv_step true) sched _ (wf_inv_init init progs Hwf)).
+  apply (exec_inv wf_inv VFixed (wf_inv_step VFixed) sched _ (wf_inv_init init progs Hwf)).
 Qed.
 
 (* ================================================================== *)
@@ -546,7 +673,7 @@ Qed.
 
 Lemma iteration_snapshot init progs sched l1 t r l2 :
   NoDup init.*1 -> Forall (Forall op_wf) progs ->
-  g_log (run true init progs sched) = l1 ++ ELin t FIter r :: l2 ->
+  g_log (run VFixed init progs sched) = l1 ++ ELin t FIter r :: l2 ->
   exists snap, r = RList snap /\ NoDup snap.*1 /\
     fm_legal (lin_hist l1) (fv_abs init) (fv_abs snap).
 Proof.
@@ -557,7 +684,7 @@ Qed.
 
 Lemma remove_unique_owner init progs sched k h1 h2 h3 :
   NoDup init.*1 -> Forall (Forall op_wf) progs ->
-  lin_hist (g_log (run true init progs sched)) = h1 ++ h2 ++ h3 ->
+  lin_hist (g_log (run VFixed init progs sched)) = h1 ++ h2 ++ h3 ->
   (count_if (takes_key k) h2 <= 1 + count_if (adds_key k) h2)%nat.
 Proof.
   intros Hnd Hwf Hh. destruct (linearizable_map init progs sched Hnd Hwf) as [Hleg _].
@@ -565,36 +692,36 @@ Proof.
 Qed.
 
 (* the run-to-completion phase is itself a schedule *)
-Lemma exec_app fixed s1 s2 s : exec fixed (s1 ++ s2) s = exec fixed s2 (exec fixed s1 s).
+Lemma exec_app cv s1 s2 s : exec cv (s1 ++ s2) s = exec cv s2 (exec cv s1 s).
 Proof. apply fold_left_app. Qed.
 
-Lemma run_thread_exec fixed fuel : forall s t,
-  exists sched, run_thread fixed fuel s t = exec fixed sched s.
+Lemma run_thread_exec cv fuel : forall s t,
+  exists sched, run_thread cv fuel s t = exec cv sched s.
 Proof.
   induction fuel as [|f IH]; intros s t; cbn [run_thread]; [exists []; reflexivity|].
   destruct (thread_done s t); [exists []; reflexivity|].
-  destruct (IH (step fixed s t) t) as [sc E]. exists (t :: sc). exact E.
+  destruct (IH (step cv s t) t) as [sc E]. exists (t :: sc). exact E.
 Qed.
 
-Lemma drain_exec fixed s : exists sched, drain fixed s = exec fixed sched s.
+Lemma drain_exec cv s : exists sched, drain cv s = exec cv sched s.
 Proof.
   unfold drain. generalize (seq 0 (length (g_thr s))). intros ts. revert s.
   induction ts as [|t ts IH]; intros s; cbn [fold_left]; [exists []; reflexivity|].
-  destruct (run_thread_exec fixed (3 * ops_left s + 3) s t) as [sc1 E1]. rewrite E1.
-  destruct (IH (exec fixed sc1 s)) as [sc2 E2]. rewrite E2.
+  destruct (run_thread_exec cv (3 * ops_left s + 3) s t) as [sc1 E1]. rewrite E1.
+  destruct (IH (exec cv sc1 s)) as [sc2 E2]. rewrite E2.
   exists (sc1 ++ sc2). rewrite exec_app. reflexivity.
 Qed.
 
-Lemma full_run_is_run fixed init progs sched :
-  exists sched', full_run fixed init progs sched = run fixed init progs sched'.
+Lemma full_run_is_run cv init progs sched :
+  exists sched', full_run cv init progs sched = run cv init progs sched'.
 Proof.
-  unfold full_run. destruct (drain_exec fixed (run fixed init progs sched)) as [sc E].
+  unfold full_run. destruct (drain_exec cv (run cv init progs sched)) as [sc E].
   exists (sched ++ sc). rewrite E. unfold run. rewrite exec_app. reflexivity.
 Qed.
 
 (* the code as originally written: two racing removes both get the value *)
 Lemma double_remove_refuted :
-  let s := run false [] bad_progs bad_sched in
+  let s := run VAsWas [] bad_progs bad_sched in
   thread_rets 1 (g_log s) = [ROpt (Some 7%N)] /\
   thread_rets 2 (g_log s) = [ROpt (Some 7%N)] /\
   forallb (thread_done s) [0; 1; 2]%nat = true /\
@@ -607,56 +734,134 @@ Proof.
 Qed.
 
 Lemma double_remove_fixed :
-  let s := run true [] bad_progs bad_sched in
+  let s := run VFixed [] bad_progs bad_sched in
   thread_rets 1 (g_log s) = [ROpt None] /\ thread_rets 2 (g_log s) = [ROpt (Some 7%N)].
 Proof. vm_compute. split; reflexivity. Qed.
 
 Lemma linearizable_all (init : fvec) (progs : list (list fop)) (sched : list nat) :
   NoDup init.*1 -> Forall (Forall op_wf) progs ->
-  let s := run true init progs sched in
+  let s := run VFixed init progs sched in
   fm_legal (lin_hist (g_log s)) (fv_abs init) (fv_abs (g_cur s)) /\
   NoDup (g_cur s).*1 /\
   forall t prog, progs !! t = Some prog -> thread_log_ok t prog (thread_log t (g_log s)).
 Proof.
   intros Hnd Hwf s.
   destruct (linearizable_map init progs sched Hnd Hwf) as [H1 H2].
-  split; [exact H1|]. split; [exact H2|]. intros t prog. exact (thread_logs_ok true init progs sched t prog).
+  split; [exact H1|]. split; [exact H2|]. intros t prog. exact (thread_logs_ok VFixed init progs sched t prog).
 Qed.
 
 (* a thread that is scheduled twice in a row completes its current call:
    after its own failed compare-and-swap its snapshot is current *)
-Lemma step_thread fixed s t th o rest :
+Lemma step_thread cv s t th o rest :
   g_thr s !! t = Some th -> t_prog th = o :: rest ->
   exists stamp' cur' th' evs nf,
-    tstep fixed t (g_stamp s) (g_cur s) th stamp' cur' th' evs /\
-    step fixed s t = MkG stamp' cur' (<[t := th']> (g_thr s)) (g_log s ++ evs) nf /\
-    g_thr (step fixed s t) !! t = Some th'.
+    tstep cv t (g_stamp s) (g_cur s) th stamp' cur' th' evs /\
+    step cv s t = MkG stamp' cur' (<[t := th']> (g_thr s)) (g_log s ++ evs) nf /\
+    g_thr (step cv s t) !! t = Some th'.
 Proof.
   intros Hth Hprog.
-  destruct (step_shape fixed s t) as [[_ Hd]|(th0 & stamp' & cur' & th' & evs & nf & Et & Hts & E)].
+  destruct (step_shape cv s t) as [[_ Hd]|(th0 & stamp' & cur' & th' & evs & nf & Et & Hts & E)].
   - unfold thread_done in Hd. rewrite Hth, Hprog in Hd. discriminate.
   - rewrite Hth in Et. injection Et as <-. exists stamp', cur', th', evs, nf.
     split; [exact Hts|]. split; [exact E|]. rewrite E. cbn [g_thr].
     apply list_lookup_insert. eapply lookup_lt_Some, Hth.
 Qed.
 
-Lemma solo_progress fixed s t o rest p :
-  g_thr s !! t = Some (MkThread (o :: rest) p) ->
-  g_thr (step fixed s t) !! t = Some (MkThread rest PIdle) \/
-  g_thr (step fixed (step fixed s t) t) !! t = Some (MkThread rest PIdle).
+(* a parked writer whose snapshot is current completes with its next step *)
+Lemma cas_current cv s t o rest snap sticky :
+  g_thr s !! t = Some (MkThread (o :: rest) (PClosure (g_stamp s) snap sticky)) ->
+  g_thr (step cv s t) !! t = Some (MkThread rest PIdle).
 Proof.
   intros Hth.
-  destruct (step_thread fixed s t _ o rest Hth eq_refl) as (st1 & cur1 & th1 & evs1 & nf1 & Hts1 & E1 & Hl1).
+  destruct (step_thread cv s t _ o rest Hth eq_refl) as (st2 & cur2 & th2 & evs2 & nf2 & Hts2 & _ & Hl2).
+  inversion Hts2; subst; [exact Hl2|congruence].
+Qed.
+
+(* a thread that is scheduled three times in a row completes its current call
+   (an entry call on a vacant key: lookup, rcu load, compare-and-swap; a writer
+   after its own failed compare-and-swap works on the current vector) *)
+Lemma solo_progress cv s t o rest p :
+  g_thr s !! t = Some (MkThread (o :: rest) p) ->
+  g_thr (step cv s t) !! t = Some (MkThread rest PIdle) \/
+  g_thr (step cv (step cv s t) t) !! t = Some (MkThread rest PIdle) \/
+  g_thr (step cv (step cv (step cv s t) t) t) !! t = Some (MkThread rest PIdle).
+Proof.
+  intros Hth.
+  destruct (step_thread cv s t _ o rest Hth eq_refl) as (st1 & cur1 & th1 & evs1 & nf1 & Hts1 & E1 & Hl1).
   inversion Hts1; subst; try (left; exact Hl1); right.
   - (* call of a writer: the next compare-and-swap succeeds *)
-    destruct (step_thread fixed _ t _ o rest Hl1 eq_refl) as (st2 & cur2 & th2 & evs2 & nf2 & Hts2 & _ & Hl2).
-    rewrite E1 in Hts2. cbn [g_stamp g_cur] in Hts2.
-    inversion Hts2; subst; [exact Hl2|congruence].
+    left. eapply cas_current. rewrite Hl1, E1. reflexivity.
   - (* guard taken: iterate *)
-    destruct (step_thread fixed _ t _ FIter rest Hl1 eq_refl) as (st2 & cur2 & th2 & evs2 & nf2 & Hts2 & _ & Hl2).
+    left.
+    destruct (step_thread cv _ t _ FIter rest Hl1 eq_refl) as (st2 & cur2 & th2 & evs2 & nf2 & Hts2 & _ & Hl2).
     inversion Hts2; subst. exact Hl2.
+  - (* vacant entry: insert's rcu loads, then its compare-and-swap succeeds *)
+    right.
+    destruct (step_thread cv _ t _ _ rest Hl1 eq_refl) as (st2 & cur2 & th2 & evs2 & nf2 & Hts2 & E2 & Hl2).
+    inversion Hts2; subst. eapply cas_current. rewrite Hl2, E2. reflexivity.
+  - (* insert's rcu loads, then its compare-and-swap succeeds *)
+    left. eapply cas_current. rewrite Hl1, E1. reflexivity.
   - (* failed compare-and-swap: the retry succeeds *)
-    destruct (step_thread fixed _ t _ o rest Hl1 eq_refl) as (st2 & cur2 & th2 & evs2 & nf2 & Hts2 & _ & Hl2).
-    rewrite E1 in Hts2. cbn [g_stamp g_cur] in Hts2.
-    inversion Hts2; subst; [exact Hl2|congruence].
+    left. eapply cas_current. rewrite Hl1, E1. reflexivity.
+Qed.
+
+(* ================================================================== *)
+(* Part 6: entry(k).or_insert_with(f)                                 *)
+(* ================================================================== *)
+
+(* What the insert of a vacant entry call does to the CONTENT at its
+   compare-and-swap, next to what an atomic "get, else insert" would do there:
+   the same if the key is still absent; if another task filled the key in the
+   meantime, the insert overwrites that value with its own (the later writer
+   wins, and each caller got its own value back), where the atomic call would
+   have kept and returned the earlier one. Either way: one entry for the key. *)
+Lemma entry_cas_effect k v (m : amap) :
+  (m !! k = None ->
+     fm_next (FIns k v) m = fm_next (FEntry k v) m /\ fm_ret_ok (FEntry k v) m (RVal v)) /\
+  (forall v1, m !! k = Some v1 ->
+     fm_next (FIns k v) m = <[k := v]> m /\ fm_next (FEntry k v) m = m /\
+     fm_ret_ok (FEntry k v) m (RVal v1)).
+Proof.
+  split.
+  - intros E. cbn [fm_next fm_ret_ok]. rewrite E. split; reflexivity.
+  - intros v1 E. cbn [fm_next fm_ret_ok]. rewrite E. repeat split; reflexivity.
+Qed.
+
+(* the race of two entry calls for one absent key, on the code as it is:
+   both find it vacant, both get their own value back, the later insert wins,
+   and the map holds the key once *)
+Lemma entry_race_fixed :
+  let s := run VFixed [] race_progs race_sched_all in
+  g_cur (run VFixed [] race_progs race_sched) = [(1, 8)]%N /\
+  thread_rets 0 (g_log s) = [RVal 7%N] /\
+  thread_rets 1 (g_log s) = [RVal 8%N] /\
+  thread_rets 2 (g_log s) = [RNum 1%N; ROpt (Some 8%N); ROpt None] /\
+  forallb (thread_done s) [0; 1; 2]%nat = true /\
+  g_cur s = [].
+Proof. vm_compute. repeat split; reflexivity. Qed.
+
+(* the variant that fills a vacant entry by appending without filtering the key
+   out: on the same schedule the key is in the vector twice; len() says 2,
+   remove(1) hands out 7 and get(1) still finds 8 afterwards - the calls, in the
+   order in which they took effect, are not a history of any sequential map *)
+Lemma entry_append_refuted :
+  let s := run VAppend [] race_progs race_sched_all in
+  g_cur (run VAppend [] race_progs race_sched) = [(1, 7); (1, 8)]%N /\
+  ~ NoDup (g_cur (run VAppend [] race_progs race_sched)).*1 /\
+  thread_rets 2 (g_log s) = [RNum 2%N; ROpt (Some 7%N); ROpt (Some 8%N)] /\
+  forallb (thread_done s) [0; 1; 2]%nat = true /\
+  forall e, ~ fm_legal (lin_hist (g_log s)) ∅ e.
+Proof.
+  split; [vm_compute; reflexivity|]. split.
+  - assert (E : (g_cur (run VAppend [] race_progs race_sched)).*1 = [1; 1]%N) by (vm_compute; reflexivity).
+    rewrite E. intros Hnd. apply NoDup_cons in Hnd as [Hni _]. apply Hni. left.
+  - split; [vm_compute; reflexivity|]. split; [vm_compute; reflexivity|].
+    intros e Hl.
+    assert (E : lin_hist (g_log (run VAppend [] race_progs race_sched_all)) =
+                [(FGet 1, ROpt None); (FGet 1, ROpt None); (FIns 1 7, RUnit); (FIns 1 8, RUnit);
+                 (FLen, RNum 2); (FRem 1, ROpt (Some 7)); (FGet 1, ROpt (Some 8))]%N)
+      by (vm_compute; reflexivity).
+    rewrite E in Hl. cbn [fm_legal fm_next fm_ret_ok] in Hl.
+    destruct Hl as (_ & _ & _ & _ & Hlen & _).
+    rewrite insert_insert, insert_empty, map_size_singleton in Hlen. discriminate Hlen.
 Qed.
